@@ -74,6 +74,14 @@ def Op.reg : Op → Nat
   | .ub r _ | .eqr r _ | .exists_ r _ | .count r _ | .size r | .iter r _ | .rconv r _ | .fconv r _ | .clear r
   | .bulk r _ | .copy r _ | .assign r _ | .swap r _ | .tswap r _ | .cmp r _ => r
 
+/-- the second register of the two-register operations (else the addressed one) -/
+def Op.reg2 : Op → Nat
+  | .copy _ q | .assign _ q | .swap _ q | .tswap _ q | .cmp _ q => q
+  | op => op.reg
+
+/-- the harness has two registers, `0` and `1` -/
+def Op.wf (op : Op) : Bool := op.reg ≤ 1 && op.reg2 ≤ 1
+
 /-- model-level answers: positions as `(curr_leaf as chain index, curr_slot)` -/
 inductive MOut where
   | ins (inserted : Bool) (pos : Nat × Nat)
@@ -308,7 +316,7 @@ def doCmp (s : MSt) (r q : Nat) : MRes :=
   let (eq, lt, gt) := cmpOut (t.stats.size == o.stats.size) t.toList o.toList
   .ok (s, .cmp eq lt gt, {})
 
-def stepOp (c : Cfg) (s : MSt) : Op → MRes
+def stepCore (c : Cfg) (s : MSt) : Op → MRes
   | .ins kind r k v => doIns c s kind r k v
   | .idx r k => doIdx c s r k
   | .insr r es => doInsr c s r es
@@ -335,6 +343,9 @@ def stepOp (c : Cfg) (s : MSt) : Op → MRes
   | .swap r q => doSwap s r q
   | .tswap r q => doTswap s r q
   | .cmp r q => doCmp s r q
+
+/-- one operation of the model machine -/
+def stepOp (c : Cfg) (s : MSt) (op : Op) : MRes := if op.wf then stepCore c s op else .bad
 
 /-- ranks instead of positions: `before` / `after` are the tree of the addressed register before
 and after the step -/
@@ -399,7 +410,7 @@ def specEra (p : Params Nat) (l : List Ent) (k : Nat) : List Ent × Nat :=
   if p.dup then (l.filter (fun e => !p.eqv k e.1), (l.filter (fun e => p.eqv k e.1)).length)
   else ((specEr1 p l k).1, if (specEr1 p l k).2 then 1 else 0)
 
-def specStep (c : Cfg) (s : SSt) : Op → Option (SSt × Out)
+def specCore (c : Cfg) (s : SSt) : Op → Option (SSt × Out)
   | .ins kind r k v =>
     if kind = .two ∧ !c.isMap then none else
     let p := c.params (s.mode r)
@@ -456,5 +467,8 @@ def specStep (c : Cfg) (s : SSt) : Op → Option (SSt × Out)
   | .cmp r q =>
     let (eq, lt, gt) := cmpOut ((s.get r).length == (s.get q).length) (s.get r) (s.get q)
     some (s, .cmp eq lt gt)
+
+/-- one operation of the abstract machine; `none`: not an operation the harness executes (`bad-op`) -/
+def specStep (c : Cfg) (s : SSt) (op : Op) : Option (SSt × Out) := if op.wf then specCore c s op else none
 
 end TlxVerif.C01
